@@ -30,7 +30,7 @@ CONSTANTS UndoOnFailure,  \* TRUE = derived in-memory state is changed only afte
 Ops     == {"rb_commit", "wal_commit", "import", "halt", "recover", "drop", "backup_sync", "set_cluster_id",
             "replica_apply", "replica_snapshot", "open"}
 Targets == {"rb", "rb_hot", "wal_frames", "wal_clean"}
-Kinds   == {"error", "unreadable", "unwritable", "notify"}
+Kinds   == {"error", "unreadable", "unwritable", "notify", "cut"}   \* cut = the replication stream breaks after n bytes
 
 Applies(o, t) ==
   CASE o = "rb_commit"      -> t = "rb"
@@ -91,7 +91,8 @@ NPh == Len(Phases(op))
 Ph  == Phases(op)[pc]
 
 \* a refused cache notification is considered where LiteFS itself rewrites pages an application may have cached
-KindApplies(o, k) == k = "notify" => o \in {"recover", "halt", "import", "replica_apply", "replica_snapshot"}
+KindApplies(o, k) == /\ (k = "notify" => o \in {"recover", "halt", "import", "replica_apply", "replica_snapshot"})
+                     /\ (k = "cut" => o \in {"replica_apply", "replica_snapshot"})
 
 Init == /\ op \in Ops /\ target \in Targets /\ Applies(op, target) /\ kind \in Kinds /\ KindApplies(op, kind)
         /\ at \in 0..Len(Phases(op))
